@@ -841,28 +841,28 @@ func main() {
 	g.seq("SafeMap", "corpus", []op{{Kind: "Set", K: 0, V: 0}, {Kind: "Contains", K: 0}, {Kind: "Get", K: 0}, {Kind: "GetOrAdd", K: 0, V: 4},
 		{Kind: "Len"}, {Kind: "Clear"}, {Kind: "Get", K: 0}, {Kind: "GetOrAdd", K: 0, V: 4}, {Kind: "ClearAndResize", N: 2}, {Kind: "Keys"}})
 
-	// 2. exhaustive small scope: keys {0 (the zero-value / nil key), 1}, values {0 (zero / nil), 1}
-	exLen := 3
+	// 2. exhaustive small scope: keys {0 (the zero-value / nil key), 1}, values {0 (zero / nil), 1}.
+	//    quick:    SafeMap every 3-letter word over the full alphabet; SyncMap every 2-letter word over the full
+	//              alphabet and every 3-letter word over the one-key alphabet
+	//    thorough: additionally SafeMap every 4-letter word over the one-key alphabet and SyncMap every 3-letter
+	//              word over the full alphabet
 	nRandom, maxLen := 250, 40
 	if *tier == "thorough" {
-		exLen = 4
-		nRandom, maxLen = 4000, 120
+		nRandom, maxLen = 2000, 100
 	}
 	keys, vals := []int{0, 1}, []int{0, 1}
 	safeTail := []op{{Kind: "Len"}, {Kind: "CopyToMap"}}
 	syncTail := []op{{Kind: "Load", K: 0}, {Kind: "Load", K: 1}, {Kind: "Range", N: 9}}
 	sa, ya := safeAlphabet(keys, vals), syncAlphabet(keys, vals)
-	syLen := exLen
-	if *tier != "thorough" {
-		syLen = 2 // 32 letters: length 3 is left to the thorough tier; quick adds length 3 over one key
-	}
-	nSafeEx := g.exhaustive("SafeMap", sa, exLen, safeTail)
-	nSyncEx := g.exhaustive("SyncMap", ya, syLen, syncTail)
-	if *tier != "thorough" {
-		nSyncEx += g.exhaustive("SyncMap", syncAlphabet([]int{1}, vals), 3, syncTail)
-	} else {
-		syLen = 3
-		_ = syLen
+	sa1, ya1 := safeAlphabet([]int{1}, vals), syncAlphabet([]int{1}, vals)
+	nSafeEx := g.exhaustive("SafeMap", sa, 3, safeTail)
+	nSyncEx := g.exhaustive("SyncMap", ya, 2, syncTail)
+	nSyncEx += g.exhaustive("SyncMap", ya1, 3, syncTail)
+	exDesc := fmt.Sprintf("SafeMap all 3-letter words over %d letters; SyncMap all 2-letter words over %d letters and all 3-letter words over %d letters (one key)", len(sa), len(ya), len(ya1))
+	if *tier == "thorough" {
+		nSafeEx += g.exhaustive("SafeMap", sa1, 4, safeTail)
+		nSyncEx += g.exhaustive("SyncMap", ya, 3, syncTail)
+		exDesc += fmt.Sprintf("; thorough adds SafeMap all 4-letter words over %d letters (one key) and SyncMap all 3-letter words over %d letters", len(sa1), len(ya))
 	}
 
 	// 3. structured random
@@ -872,8 +872,8 @@ func main() {
 		g.seq("SyncMap", "random", g.randomSync(l, 2+g.rng.Intn(5), 2+g.rng.Intn(6)))
 	}
 
-	g.w.Extra["scope"] = fmt.Sprintf("corpus %d sequences (F8 witnesses first); exhaustive: SafeMap all %d-letter words over %d letters (%d), SyncMap %d words; random: %d sequences per object of length 5..%d; every sequence at 4 (SafeMap) / 5 (SyncMap) key/value instantiations",
-		len(nilW)+2, exLen, len(sa), nSafeEx, nSyncEx, nRandom, 5+maxLen)
+	g.w.Extra["scope"] = fmt.Sprintf("corpus %d sequences (F8 witnesses first); exhaustive: %s (%d SafeMap + %d SyncMap words, each followed by a full observation); random: %d sequences per object of length 5..%d; every sequence at 4 (SafeMap) / 5 (SyncMap) key/value instantiations",
+		len(nilW)+2, exDesc, nSafeEx, nSyncEx, nRandom, 5+maxLen)
 	g.w.Extra["sequences_with_type_disagreement"] = g.typeDisagree
 	g.w.Extra["instantiation_runs_where_plain_go_map_differs"] = g.refDisagree
 	g.w.Extra["instantiations"] = "SafeMap: int/int, string/string, *T/*T, any/any; SyncMap: the same plus int/any"
